@@ -23,6 +23,7 @@ type CaseC13 struct {
 	JDocs   []map[string]interface{} `json:"jdocs,omitempty"`
 	JIndent []bool                   `json:"jindent,omitempty"`
 	Lead    []string                 `json:"lead"` // whitespace before each document
+	Prolog  []string                 `json:"prolog,omitempty"` // XML kinds: declaration / comment / DOCTYPE before a document
 	Trail   string                   `json:"trail"`
 	Sched   []int                    `json:"sched"` // >0: deliver up to n bytes; 0: (0, nil)
 	EOFWith bool                     `json:"eof_with"`
@@ -129,6 +130,9 @@ func genC13(t *rapid.T) CaseC13 {
 	nd := rapid.IntRange(1, 5).Draw(t, "ndocs")
 	for i := 0; i < nd; i++ {
 		c.Lead = append(c.Lead, rapid.SampledFrom(wsRuns).Draw(t, "leadws"))
+		if c.Kind != "json" {
+			c.Prolog = append(c.Prolog, rapid.SampledFrom([]string{"", "", "", "<?xml version=\"1.0\"?>", "<!-- between documents -->", "<!DOCTYPE a>", "<?xml version=\"1.0\" encoding=\"UTF-8\"?>\n"}).Draw(t, "prolog"))
+		}
 		switch c.Kind {
 		case "xml":
 			g := XGen{Opts: defaultOpts(), MixedText: true, Namespaces: true}
@@ -193,9 +197,15 @@ func checkC13(c CaseC13, info *Info) *Failure {
 	var stream bytes.Buffer
 	var docs [][]byte
 	var want []map[string]interface{}
+	var wantNoRoot []bool // sequence decoder: a leading declaration/comment/directive is delivered as its own no-root result
 	bounds := map[int]bool{}
+	prologs := 0
 	for i := 0; i < nd; i++ {
 		var b []byte
+		prolog := ""
+		if i < len(c.Prolog) {
+			prolog = c.Prolog[i]
+		}
 		switch c.Kind {
 		case "json":
 			if i < len(c.JIndent) && c.JIndent[i] {
@@ -210,6 +220,20 @@ func checkC13(c CaseC13, info *Info) *Failure {
 			}
 			want = append(want, m)
 		case "seq":
+			if strings.TrimSpace(prolog) != "" {
+				pm, perr := mxj.NewMapXmlSeq([]byte(prolog))
+				if perr != mxj.NoRoot {
+					return failf("direct-decode-error", "NewMapXmlSeq(%q): %v, expected the no-root result", prolog, perr)
+				}
+				stream.WriteString(c.Lead[i])
+				stream.WriteString(prolog)
+				docs = append(docs, []byte(strings.TrimSpace(prolog)))
+				want = append(want, pm)
+				wantNoRoot = append(wantNoRoot, true)
+				bounds[stream.Len()] = true
+				prologs++
+				prolog = ""
+			}
 			b = []byte(c.XDocs[i].String())
 			m, err := mxj.NewMapXmlSeq(b)
 			if err != nil {
@@ -225,10 +249,15 @@ func checkC13(c CaseC13, info *Info) *Failure {
 			want = append(want, m)
 		}
 		stream.WriteString(c.Lead[i])
+		if c.Kind == "xml" {
+			stream.WriteString(prolog) // skipped by the Map decoder, part of the consumed (raw) bytes
+		}
 		stream.Write(b)
 		docs = append(docs, b)
+		wantNoRoot = append(wantNoRoot, false)
 		bounds[stream.Len()] = true
 	}
+	nd += prologs
 	stream.WriteString(c.Trail)
 	data := stream.Bytes()
 	sr := &schedReader{data: data, sched: c.Sched, eofWith: c.EOFWith, bounds: bounds}
@@ -241,6 +270,7 @@ func checkC13(c CaseC13, info *Info) *Failure {
 	}
 
 	var got []map[string]interface{}
+	var gotNoRoot []bool
 	var raws [][]byte
 	var lastErr error
 	readOne := func() (map[string]interface{}, []byte, error) {
@@ -320,12 +350,19 @@ func checkC13(c CaseC13, info *Info) *Failure {
 	} else {
 		for i := 0; i < nd+2; i++ {
 			m, r, err := readOne()
+			if err == mxj.NoRoot && c.Kind == "seq" {
+				got = append(got, m)
+				gotNoRoot = append(gotNoRoot, true)
+				raws = append(raws, r)
+				continue
+			}
 			if err != nil {
 				lastErr = err
 				raws = append(raws, r)
 				break
 			}
 			got = append(got, m)
+			gotNoRoot = append(gotNoRoot, false)
 			raws = append(raws, r)
 		}
 	}
@@ -339,7 +376,11 @@ func checkC13(c CaseC13, info *Info) *Failure {
 		if !reflect.DeepEqual(got[i], want[i]) {
 			return failf("document-mismatch", "%s: document %d: got %#v want %#v", desc(), i, got[i], want[i])
 		}
+		if c.Kind == "seq" && i < len(gotNoRoot) && gotNoRoot[i] != wantNoRoot[i] {
+			return failf("document-mismatch", "%s: result %d: no-root=%v, direct decoding says %v", desc(), i, gotNoRoot[i], wantNoRoot[i])
+		}
 	}
+	info.ClassIf(prologs > 0 || (c.Kind == "xml" && strings.TrimSpace(strings.Join(c.Prolog, "")) != ""), "declaration/comment/DOCTYPE before a document")
 	if rawAPI {
 		cat := bytes.Join(raws, nil)
 		if c.Kind == "json" {
